@@ -1086,9 +1086,212 @@ def _run_mention(cfg) -> Dict[str, Any]:
         viol.append({"sig": {"class": "loop-error", "scenario": "version-mentioned-in-traffic"}, "msg": f"{errors[:2]}; {where}"})
     return {"outcome": f"mention:{'accepting' if ref_accepts(v) else 'rejecting'}:{side}", "violations": viol[:12], "counters": cnt}
 
+# ---------------------------------------------------------------------------
+# (h) pending per-request streams while a batch is routed
+# ---------------------------------------------------------------------------
+PENDING_CHOICES = ["none", "first", "middle", "last", "all"]
+
+
+def _run_pending(cfg) -> Dict[str, Any]:
+    """client.new_request_stream(id) registered for some of the batch's response ids: the main read stream
+    must still carry every valid member in order."""
+    import anyio
+
+    version = cfg["version"]
+    which = cfg["pending"]
+    viol: List[dict] = []
+    cnt: Dict[str, int] = {"sequences": 0, "steps": 0, "pending-stream-scenarios": 0}
+    outs = set()
+    batches = [b for b in OPS_FULL if b[0] == "b" and b[1]]
+    for op in batches[cfg["lo"]:cfg["hi"]]:
+        line = line_for(op, 1)
+        rids = [m["id"] for m in line if isinstance(m, dict) and "result" in m]
+        if which == "none":
+            chosen = []
+        elif which == "all":
+            chosen = list(rids)
+        elif not rids:
+            continue
+        else:
+            chosen = [rids[{"first": 0, "middle": len(rids) // 2, "last": -1}[which]]]
+        c = _Client()
+        log: Dict[str, Any] = {}
+
+        async def body(client, c=c, log=log, line=line, chosen=chosen):
+            if version is not None:
+                client.set_protocol_version(version)
+            streams = [(rid, client.new_request_stream(str(rid))) for rid in chosen]
+            c.proc.stdout.feed((json.dumps(line) + "\n").encode())
+            await c.q.settle()
+            log["got"] = c.drain(client)
+            per = {}
+            for rid, st in streams:
+                try:
+                    per[str(rid)] = _dump(st.receive_nowait())
+                except (anyio.WouldBlock, anyio.EndOfStream, anyio.ClosedResourceError):
+                    per[str(rid)] = None
+            log["per_request"] = per
+
+        status, val, errors = c.run(body)
+        cnt["sequences"] += 1
+        cnt["pending-stream-scenarios"] += 1
+        where = f"version={version!r}, per-request streams pending for ids {chosen} ({which}), batch {op_name(op)}"
+        if status != "ok":
+            viol.append({"sig": {"class": "did-not-finish", "scenario": "pending-request-streams", "status": status},
+                         "msg": f"{status}: {val!r}; {where}"})
+            outs.add(status)
+            continue
+        cnt["steps"] += 1
+        sub: List[dict] = []
+        judge_line(line, version, log["got"], where, sub, cnt)
+        for x in sub:
+            x["sig"] = {**x["sig"], "scenario": "pending-request-streams", "pending": which}
+        viol.extend(sub)
+        got_per = sum(1 for v in log["per_request"].values() if v is not None)
+        cnt[f"per-request-stream-{'served' if got_per == len(chosen) else 'not-served'}(recorded)"] = \
+            cnt.get(f"per-request-stream-{'served' if got_per == len(chosen) else 'not-served'}(recorded)", 0) + (1 if chosen else 0)
+        if errors:
+            viol.append({"sig": {"class": "loop-error", "scenario": "pending-request-streams"}, "msg": f"{errors[:2]}; {where}"})
+        outs.add("accepting" if ref_accepts(version) else "rejecting")
+    return {"outcome": "pending:" + which + ":" + "+".join(sorted(outs)), "violations": viol[:12], "counters": cnt}
+
+
+# ---------------------------------------------------------------------------
+# (i) several lines in ONE read: a consumer changes the version after line k, a batch follows in the same read
+# ---------------------------------------------------------------------------
+def _read_layouts() -> List[List[str]]:
+    """T = the single message the consumer reacts to, S = another single message, B = batch line.
+    Only layouts with at least one single line between T and the first B carry a sound ordering witness."""
+    return [["T", "S", "B"], ["S", "T", "S", "B"], ["T", "S", "S", "B"], ["T", "S", "B", "B"], ["T", "B"], ["S", "T", "B"],
+            ["T", "S", "B", "S"]]
+
+
+def _run_oneread(cfg) -> Dict[str, Any]:
+    import asyncio
+
+    import anyio
+
+    v0 = [None] + VERSIONS
+    v0 = v0[cfg["v0"]]
+    v = VERSIONS[cfg["v"]]
+    layout = _read_layouts()[cfg["layout"]]
+    chunking = cfg["chunking"]  # "one-read" | "line-per-read"
+    kinds = cfg["batch"]
+    c = _Client()
+    log: Dict[str, Any] = {"received": [], "witness": None}
+    lines: List[Any] = []
+    for i, t in enumerate(layout):
+        if t == "T":
+            lines.append({**J, "id": "trigger", "result": {"switch": True}})
+        elif t == "S":
+            lines.append({**J, "method": "notifications/message", "params": {"line": i}} if i % 2 else {**J, "id": f"s{i}", "result": {"line": i}})
+        else:
+            lines.append(line_for(["b", kinds], 10 + i))
+
+    async def body(client):
+        read, _w = client.get_streams()
+        if v0 is not None:
+            client.set_protocol_version(v0)
+
+        async def consumer():
+            while True:
+                try:
+                    m = await read.receive()
+                except (anyio.EndOfStream, anyio.ClosedResourceError):
+                    return
+                d = _dump(m) if not isinstance(m, list) else {"__python_list__": len(m)}
+                log["received"].append(d)
+                if isinstance(d, dict) and d.get("id") == "trigger" and log["witness"] is None:
+                    # witness: nothing that follows the trigger has been routed yet when the version changes
+                    st = read.statistics()
+                    log["witness"] = {"buffered": st.current_buffer_used, "received_before": len(log["received"]) - 1,
+                                      "stdin_before": len(c.proc.stdin.sends)}
+                    client.set_protocol_version(v)
+
+        t = asyncio.ensure_future(consumer())
+        await c.q.settle()
+        log["waiting"] = read.statistics().tasks_waiting_receive
+        if chunking == "one-read":
+            c.proc.stdout.feed(("".join(json.dumps(ln) + "\n" for ln in lines)).encode())
+            await c.q.settle()
+        else:
+            for ln in lines:
+                c.proc.stdout.feed((json.dumps(ln) + "\n").encode())
+                await c.q.settle()
+        log["stdin"] = list(c.proc.stdin.sends)
+        log["pv"] = client.get_protocol_version()
+        t.cancel()
+        try:
+            await t
+        except BaseException:  # noqa: BLE001
+            pass
+
+    status, val, errors = c.run(body)
+    where = (f"version {v0!r} in force; {chunking}: lines {layout} with batch [{kinds}]; the consumer calls "
+             f"set_protocol_version({v!r}) on receiving the trigger line")
+    viol: List[dict] = []
+    cnt: Dict[str, int] = {"sequences": 1, "steps": len(layout), "one-read-scenarios": 1}
+    scen = {"scenario": "several-lines-in-one-read" if chunking == "one-read" else "one-line-per-read"}
+    if status != "ok":
+        viol.append({"sig": {"class": "did-not-finish", **scen, "status": status}, "msg": f"{status}: {val!r}; {where}"})
+        return {"outcome": "oneread:" + status, "violations": viol, "counters": cnt}
+    if log["waiting"] != 1:
+        raise core.HarnessError(f"consumer was not waiting on the read stream before the read ({log['waiting']})")
+    w = log["witness"]
+    if w is None or log["pv"] != v:
+        viol.append({"sig": {"class": "client-state-differs-from-model", **scen},
+                     "msg": f"trigger seen: {w is not None}; get_protocol_version()={log['pv']!r}, expected {v!r}; {where}"})
+        return {"outcome": "oneread:no-switch", "violations": viol, "counters": cnt}
+    ti = layout.index("T")
+    first_b = layout.index("B")
+    single_between = any(x == "S" for x in layout[ti + 1:first_b])
+    # singles in front of T + T itself must be all that was received, nothing buffered, nothing written: then the
+    # reader had not yet touched any line behind T when set_protocol_version() returned
+    sound = (single_between and w["buffered"] == 0 and w["stdin_before"] == 0
+             and w["received_before"] == sum(1 for x in layout[:ti] if x == "S"))
+    if not sound:
+        cnt["one-read/ordering-not-witnessed(recorded, not judged)"] = 1
+        return {"outcome": "oneread:unwitnessed", "violations": viol, "counters": cnt}
+    cnt["one-read/ordering-witnessed"] = 1
+    # expected traffic behind the trigger, line by line, all under the new version v
+    accept = ref_accepts(v)
+    exp_read: List[Any] = []
+    n_rej = 0
+    for x, ln in zip(layout[ti + 1:], lines[ti + 1:]):
+        if x == "S":
+            exp_read.append(ln)
+        elif accept:
+            exp_read.extend(m for m in ln if classify(m)[0] is not None)
+        else:
+            n_rej += 1
+    got_read = log["received"][w["received_before"] + 1:]
+    mode = "accepting" if accept else "rejecting"
+    change = ("accepting" if ref_accepts(v0) else "rejecting") + "->" + mode
+    if not _same(got_read, exp_read):
+        cls = ("rejected-batch-member-delivered" if not accept else
+               "valid-member-not-delivered" if len(got_read) < len(exp_read) else "members-reordered-or-duplicated")
+        viol.append({"sig": {"class": cls, "mode": mode, **scen, "switch": change},
+                     "msg": f"after the version change the read stream got {got_read}, expected {exp_read}; {where}"})
+    rej = [x for x in log["stdin"] if b'"error"' in x]
+    if len(rej) != n_rej or len(log["stdin"]) != n_rej:
+        viol.append({"sig": {"class": "rejection-count" if not accept else "accepted-batch-answered", "mode": mode, **scen, "switch": change,
+                             "lines": min(len(rej), 2)},
+                     "msg": f"{len(log['stdin'])} lines written to the child ({len(rej)} errors), expected {n_rej} rejection(s); {where}"})
+    for r in rej:
+        why = _valid_rejection(r)
+        if why:
+            viol.append({"sig": {"class": "rejection-malformed", "mode": mode, **scen}, "msg": f"{why}; {where}"})
+    if errors:
+        viol.append({"sig": {"class": "loop-error", **scen}, "msg": f"{errors[:2]}; {where}"})
+    return {"outcome": f"oneread:{chunking}:{change}", "violations": viol[:12], "counters": cnt}
+
 
 def run_one(ctl: explorer.Ctl, cfg: Dict[str, Any]) -> Dict[str, Any]:
     part = cfg["part"]
+    if part == "pending":
+        return _run_pending(cfg)
+    if part == "oneread":
+        return _run_oneread(cfg)
     if part == "mention":
         return _run_mention(cfg)
     if part == "inbatch":
@@ -1229,6 +1432,20 @@ def run(tier: str, only=None) -> core.Result:
     sched.absorb(res, "g-version-mentioned-in-traffic", RUN, out, mcfgs)
     samples += _pick("g-version-mentioned-in-traffic", mcfgs)
     sched.debug_pass(res, "g-version-mentioned-in-traffic", RUN, mcfgs, every=11)
+    nb = len([b for b in OPS_FULL if b[0] == "b" and b[1]])
+    pcfgs = [{"part": "pending", "version": ver, "pending": w, "lo": lo, "hi": min(nb, lo + 30)}
+             for ver in (None, "2025-03-26", "2025-06-18") for w in PENDING_CHOICES for lo in range(0, nb, 30)]
+    out = explorer.explore(RUN, pcfgs)
+    sched.absorb(res, "h-pending-per-request-streams", RUN, out, pcfgs)
+    samples += _pick("h-pending-per-request-streams", pcfgs)
+    sched.debug_pass(res, "h-pending-per-request-streams", RUN, pcfgs, every=7)
+    ocfgs = [{"part": "oneread", "v0": a, "v": b, "layout": li, "chunking": ch, "batch": k}
+             for a in range(len(VERSIONS) + 1) for b in range(len(VERSIONS)) for li in range(len(_read_layouts()))
+             for ch in ("one-read", "line-per-read") for k in ("RN", "R", "", "XR")]
+    out = explorer.explore(RUN, ocfgs)
+    sched.absorb(res, "i-several-lines-in-one-read", RUN, out, ocfgs)
+    samples += _pick("i-several-lines-in-one-read", ocfgs)
+    sched.debug_pass(res, "i-several-lines-in-one-read", RUN, ocfgs, every=13)
     ncase = len(_switch_cases())
     cfgs = [{"part": "switch", "v0": a, "v": b, "lo": lo, "hi": min(ncase, lo + 20)}
             for a in range(len(SWITCH_V0)) for b in range(len(VERSIONS)) for lo in range(0, ncase, 20)]
@@ -1272,6 +1489,10 @@ def run(tier: str, only=None) -> core.Result:
     cov["single_messages"] = {k: v for k, v in cnt.items() if k.startswith("single-")}
     cov["reentered_bare_client_recorded"] = {k: v for k, v in cnt.items() if k.startswith("reentered-bare-client/")}
     cov["debug_logging_reruns"] = dbg_exec
+    cov["pending_stream_scenarios"] = cnt.get("pending-stream-scenarios", 0)
+    cov["one_read_scenarios"] = {"total": cnt.get("one-read-scenarios", 0), "ordering_witnessed_and_judged": cnt.get("one-read/ordering-witnessed", 0),
+                                 "not_witnessed_recorded": cnt.get("one-read/ordering-not-witnessed(recorded, not judged)", 0)}
+    cov["per_request_streams_recorded"] = {k: v for k, v in cnt.items() if k.startswith("per-request-stream-")}
     cov["version_mention_scenarios"] = cnt.get("version-mention-scenarios", 0)
     cov["congested_scenarios"] = cnt.get("congested-scenarios", 0)
     cov["handshakes_answered_inside_a_batch"] = cnt.get("inbatch-handshakes", 0)
@@ -1307,6 +1528,11 @@ def run(tier: str, only=None) -> core.Result:
         "arrival, the following line to the new version. (g) after set_protocol_version(v) / a real handshake at v / nothing, one or two single lines that merely mention a version w "
         "(late or unsolicited initialize result, bare {protocolVersion} result, notification, error response, server request, nested member; every "
         "v x w x line, ordered pairs of lines) and then a batch: the negotiated version and the decision must still follow v. "
+        "(h) per-request streams (client.new_request_stream) pending for none / the first / middle / last / all response ids of every non-empty batch "
+        "of <=4 members at 3 versions: the main read stream must still carry the valid members in order. (i) 2-4 lines in ONE read (and the same lines one "
+        "read each as control): a consumer calls set_protocol_version(v) on receiving a trigger line, a batch follows later in the same read; every "
+        "(initial, new) version pair x 7 layouts x 4 batches; judged only when the happens-before is witnessed (a single line lies between trigger and batch, "
+        "and at the moment of the call nothing behind the trigger had been buffered, received or written) - then everything behind the trigger follows v. "
         "A slice of every part is re-run with library logging at DEBUG. distinct_nontrivial = distinct observation digests of the blocks"
     )
     res.assumptions = [
@@ -1325,6 +1551,9 @@ def run(tier: str, only=None) -> core.Result:
         "accept/reject is decided per batch LINE when it arrives: a version recorded while its members are still being routed applies from the next line on",
         "handshake answered inside a batch: members in front of the response are consumed by the waiting request (send_message skips them); their delivery is "
         "observed on the notification stream, members behind the response on the read stream",
+        "several lines in one read: a batch line is judged by the new version only if set_protocol_version() provably returned before the reader reached it "
+        "(witness above); layouts where the batch directly follows the trigger are run and recorded, not judged",
+        "whether a pending per-request stream itself receives its response is recorded (per_request_streams_recorded), the statement speaks about the read stream",
         "under congestion the position of the -32600 line among the application's messages is not prescribed, only its presence exactly once",
     ]
     return res
